@@ -17,27 +17,27 @@ type Edge struct {
 }
 
 type Loop struct {
-	Header *ssa.BasicBlock
-	Blocks map[*ssa.BasicBlock]bool
-	Parent *Loop
+	Header  *ssa.BasicBlock
+	Blocks  map[*ssa.BasicBlock]bool
+	Parent  *Loop
 	LiveOut []ssa.Value
 	Ordinal int // among loops of the function in header order
 }
 
 type Frame struct {
-	Fn      *ssa.Function
-	Env     map[ssa.Value]Val
-	RPO     []*ssa.BasicBlock
-	Loops   []*Loop
-	LoopOf  map[*ssa.BasicBlock]*Loop // innermost loop containing block
-	HeadOf  map[*ssa.BasicBlock]*Loop
-	Prefix  string // obligation-name prefix (call chain)
-	Rets    []RetEdge
-	Defers  []deferred
-	Names   map[string][]ssa.Value // source variable name -> SSA values (from DebugRef)
-	Pre     *State                 // state at entry (for old())
-	Args    []Val
-	Depth   int
+	Fn       *ssa.Function
+	Env      map[ssa.Value]Val
+	RPO      []*ssa.BasicBlock
+	Loops    []*Loop
+	LoopOf   map[*ssa.BasicBlock]*Loop // innermost loop containing block
+	HeadOf   map[*ssa.BasicBlock]*Loop
+	Prefix   string // obligation-name prefix (call chain)
+	Rets     []RetEdge
+	Defers   []deferred
+	Names    map[string][]ssa.Value // source variable name -> SSA values (from DebugRef)
+	Pre      *State                 // state at entry (for old())
+	Args     []Val
+	Depth    int
 	Contract *FnContract
 }
 
@@ -53,47 +53,48 @@ type RetEdge struct {
 }
 
 type Exec struct {
-	C          *Ctx
-	P          *Program
-	DB         *ContractDB
-	Top        *ssa.Function
-	TopName    string
-	initHeap   map[string]Term
-	regionSort map[string]Sort
-	globals    map[*ssa.Global]int
-	inc        *IncSolver
-	MaxUnroll  int
-	MaxDepth   int
-	stack      []*ssa.Function
-	oblSeen    map[string]int
-	srcOrd     map[string]int
-	Opts       ExecOpts
-	feasCalls  int
-	epochs     []epochInfo
-	epochHeap  map[string]Term
-	snapRefs   map[string]bool
-	havocked   bool
-	sigs       map[string]SpecSig
-	specFiles  []string
-	allowStdInline map[string]bool
-	boundPhis  map[*ssa.Phi]Val
-	ctxPCs     []Term // path conditions of the enclosing (inlining) call sites
-	globalPinned map[*ssa.Global]bool
-	stableCache  []*ssa.Global
-	roInit       map[string]Term // reference (constant term) of a read-only package variable -> its initialiser
+	C                             *Ctx
+	P                             *Program
+	DB                            *ContractDB
+	Top                           *ssa.Function
+	TopName                       string
+	initHeap                      map[string]Term
+	regionSort                    map[string]Sort
+	globals                       map[*ssa.Global]int
+	inc                           *IncSolver
+	MaxUnroll                     int
+	MaxDepth                      int
+	stack                         []*ssa.Function
+	oblSeen                       map[string]int
+	srcOrd                        map[string]int
+	Opts                          ExecOpts
+	feasCalls                     int
+	epochs                        []epochInfo
+	epochHeap                     map[string]Term
+	snapRefs                      map[string]bool
+	snapOrigins                   map[string]snapOrigin
+	havocked                      bool
+	sigs                          map[string]SpecSig
+	specFiles                     []string
+	allowStdInline                map[string]bool
+	boundPhis                     map[*ssa.Phi]Val
+	ctxPCs                        []Term // path conditions of the enclosing (inlining) call sites
+	globalPinned                  map[*ssa.Global]bool
+	stableCache                   []*ssa.Global
+	roInit                        map[string]Term // reference (constant term) of a read-only package variable -> its initialiser
 	frameEvals, minRegionsAtFrame int
-	regionTypes  map[string]types.Type // heap region -> Go type of its objects / elements
-	storeDefs    map[string][3]string // named heap term -> (array, index, value) of the store it names
-	roElems      map[string]map[int64]Term // read-only array globals: element terms by constant index
-	uremSeen     map[string]bool
-	topGhosts    map[string]Val // ghost variables / lets of the function under verification (visible in its loop invariants)
-	ifaceOrigin  map[string]ifaceOrg // interface term (as named by its MakeInterface) -> dynamic type and boxed value
-	dirty        map[string]bool // heap regions in which an object that existed at entry may have been written
-	dirtyAll     bool
-	oldWrites    int  // stores whose target is not syntactically an object allocated by the function itself
-	allocBound   *Clause // `opt alloc=<expr>`: byte bound for data-dependent allocations
-	topContract  *FnContract
-	topArgs      []Val
+	regionTypes                   map[string]types.Type     // heap region -> Go type of its objects / elements
+	storeDefs                     map[string][3]string      // named heap term -> (array, index, value) of the store it names
+	roElems                       map[string]map[int64]Term // read-only array globals: element terms by constant index
+	uremSeen                      map[string]bool
+	topGhosts                     map[string]Val      // ghost variables / lets of the function under verification (visible in its loop invariants)
+	ifaceOrigin                   map[string]ifaceOrg // interface term (as named by its MakeInterface) -> dynamic type and boxed value
+	dirty                         map[string]bool     // heap regions in which an object that existed at entry may have been written
+	dirtyAll                      bool
+	oldWrites                     int     // stores whose target is not syntactically an object allocated by the function itself
+	allocBound                    *Clause // `opt alloc=<expr>`: byte bound for data-dependent allocations
+	topContract                   *FnContract
+	topArgs                       []Val
 }
 
 type ExecOpts struct {
@@ -684,7 +685,6 @@ func (x *Exec) runDefers(fr *Frame, st *State) error {
 	}
 	return nil
 }
-
 
 // absPC: path conditions inside an inlined call are kept relative to the call (so that the same callee with the
 // same arguments produces the same terms wherever it is called); the absolute condition adds the enclosing ones.
